@@ -840,3 +840,41 @@ Example C18_source_apply_env_witness :
   G.apply_env [(1, G.mk_SetupScriptEnvMap [(10, 11); (12, 13)]); (2, G.mk_SetupScriptEnvMap [(10, 99)])]
               (fun s => N.eqb s 1) = [(10, 11); (12, 13)].
 Proof. vm_compute. reflexivity. Qed.
+
+(* ---- the path of the leak verdict (C03) *)
+
+(* C03 "LEAK iff exit code 0 and a handle still open at the leak timeout": in run_test_inner and in
+   run_setup_script_inner the `leaked` argument of the create_execution_result call the status is built from,
+   regenerated from the source with the `let`s it depends on, is the value detect_fd_leaks(..).await yielded -- that
+   value and nothing else (no further test of the process group, the exit status, ...), for both answers. *)
+Theorem C03_source_leak_verdict_unchanged :
+  forall detected,
+    G.run_test_leak_verdict detected = MLV.verdict_of_detection detected /\
+    G.run_script_leak_verdict detected = MLV.verdict_of_detection detected.
+Proof. exact gen_leak_verdict_unchanged. Qed.
+Print Assumptions C03_source_leak_verdict_unchanged.
+
+(* with Model/Classify.v (the function C03's theorems are about) applied to the regenerated argument: LEAK is reported
+   iff the attempt ran to exit code 0 with readable output and the detection said a handle was still open *)
+Theorem C03_leak_reported_iff_source_leak_verdict_unchanged :
+  forall sf to st errs detected,
+    MCl.attempt_result sf to st errs (G.run_test_leak_verdict detected) = MCl.Leak <->
+    sf = false /\ to = false /\ errs = false /\ st = MCl.Exited 0 /\ detected = true.
+Proof.
+  intros sf to st errs detected. destruct (gen_leak_verdict_unchanged detected) as [-> _].
+  exact (PLV.leak_reported_iff_detected sf to st errs detected).
+Qed.
+Print Assumptions C03_leak_reported_iff_source_leak_verdict_unchanged.
+
+Theorem C03_pass_reported_iff_not_detected :
+  forall sf to st errs detected,
+    MLV.attempt_result_detected sf to st errs detected = MCl.Pass <->
+    sf = false /\ to = false /\ errs = false /\ st = MCl.Exited 0 /\ detected = false.
+Proof. exact PLV.pass_reported_iff_not_detected. Qed.
+Print Assumptions C03_pass_reported_iff_not_detected.
+
+Theorem C03_fail_carries_detection :
+  forall sf to st errs detected sg lk,
+    MLV.attempt_result_detected sf to st errs detected = MCl.Fail sg lk -> lk = detected.
+Proof. exact PLV.fail_carries_detection. Qed.
+Print Assumptions C03_fail_carries_detection.
